@@ -350,8 +350,9 @@ class C05(Prop):
                                          "as multisets of filings (C02), byte equality of the second text is validated per case",
         "C05_ci_loaded_is_normal_partial": "compose/release sections valid and WellKeyed are proved for every version; validity of every variant "
                                            "against its parent and the sorted order of children are not (validated per case)",
-        "C05_ci_idempotent_partial": "hypotheses UidsDistinct (decidable) and 'the writer accepts the loaded object' (serialize x = ok j) are "
-                                     "explicit; that every loaded object with distinct UIDs is writable is validated per case, not proved",
+        "C05_ci_idempotent_partial": "hypothesis 'the writer accepts the loaded object' (serialize x = ok j) is explicit; that every loaded "
+                                     "object is writable (a document holding one UID twice at different levels is not: F14) is validated per "
+                                     "case, not proved",
         "C05_ti_loaded_is_normal_partial": "per-section validity and current header for every version incl. 0.0; no Lean idempotence theorem for "
                                            "treeinfo because C04 has no reader-half theorem to compose with: idempotence is proved on witnesses "
                                            "(0.3, 0.0) and validated on every fixture / generated file",
